@@ -70,7 +70,7 @@ def validate(seed, n_traces, length, family, nprimes=8, timeout=1800):
             cfg_text = f.read()
         err = None
         behs = None
-        for k in (nprimes, 14, 20):
+        for k in (nprimes, 14, 22, 36):
             try:
                 behs, stats = tlcrun.run_model("Trace", cfg_text, nprimes=k, timeout=timeout, workers=1,
                                                extra_env={"TRACE_FILE": path})
